@@ -51,6 +51,38 @@ func tierOf(t types.Type) (int, string) {
 func runC10(p *core.Prog, r *core.Report, tier string) {
 	ds := core.NewDescriber()
 
+	// ---- (s) the settings of a validator are resolved for the call at hand: what the block relay's ProposerConfig
+	// returns is the answer of the configurator to THIS (account, key) pair — not an answer remembered under the key
+	// alone (lookups without an account resolve differently and would pin their answer for the lookups with one) ----
+	if pc := p.Func("services/blockrelay/standard", "Service", "ProposerConfig"); pc != nil {
+		for k, ret := range core.ReturnsOf(pc) {
+			if len(ret.Results) != 2 || ret.Block() == pc.Recover {
+				continue
+			}
+			fresh := true
+			what := ""
+			for _, lf := range core.PhiLeaves(core.Unspill(ret.Results[0]), ret) {
+				if core.IsNilConst(lf.V) {
+					continue
+				}
+				if _, isFresh := lf.V.(*ssa.Alloc); isFresh {
+					continue // the fallback settings, built on the spot
+				}
+				ex, isEx := lf.V.(*ssa.Extract)
+				if isEx {
+					if call, ok := ex.Tuple.(*ssa.Call); ok && core.MethodName(call.Common()) == "ProposerConfig" {
+						continue
+					}
+				}
+				fresh = false
+				what = ds.D(lf.V).String()
+			}
+			r.Check(fresh, "C10.s", fmt.Sprintf("%s|return#%d|resolved-for-this-call", core.FnKey(pc), k+1), p.Pos(ret.Pos()), "the settings returned are the configurator's answer to this call", "the settings returned are "+what+", not the configurator's answer to this (account, key) pair: an answer remembered under part of the key is served to lookups that would resolve differently")
+		}
+	} else {
+		r.Undecide("C10.s", "services/blockrelay/standard.Service.ProposerConfig", "", "anchor not found")
+	}
+
 	// ---- (r) amounts are configured in ether and compared in wei: the conversion factor is 10^18 wherever it is
 	// declared (decimal.New(value, exponent) = value x 10^exponent) ----
 	nWei := 0
